@@ -1017,6 +1017,90 @@ func runFo(o Opts) *Result {
 			break
 		}
 	}
+	if (o.Profile == "c02" || o.Profile == "c04") && o.Only < 0 {
+		runFoPanicSuite(res)
+	}
 	res.DistinctNontrivial = len(uniq)
 	return res
+}
+
+// ---- builder panics -------------------------------------------------------------------------------------------------
+// A panicking builder is outside the Lean machine (its outcome scripts are value / error). What the implementation promises
+// anyway is bookkeeping: the invocation is counted (C18), the key lock is released so that a later Get builds again (C04),
+// and the panic reaches the caller. Lone Gets, no scheduler: the sync path only (a panic in a background build ends the process).
+func runFoPanicSuite(res *Result) {
+	ctx := context.Background()
+	for _, variant := range []string{"F:sharded", "F:sync", "Of:shardedOf"} {
+		for _, seedStale := range []bool{false, true} {
+			keys := NewKeyTable()
+			stats := NewStats()
+			kind := strings.SplitN(variant, ":", 2)[1]
+			inner := NewBackend(BCfg{Kind: kind, TTL: time.Hour, Jitter: Rat{-1, 1, -1}, Name: "fo-panic"}, keys)
+			var fe frontend
+			if strings.HasPrefix(variant, "F:") {
+				fe = feAny{cache.NewFailover(func(c *cache.FailoverConfig) {
+					c.Name, c.Backend, c.Stats, c.FailedUpdateTTL, c.SyncUpdate = "fo", inner.Raw().(cache.ReadWriter), stats, -1, true
+				})}
+			} else {
+				fe = feOf{cache.NewFailoverOf[int](func(c *cache.FailoverConfigOf[int]) {
+					c.Name, c.Backend, c.Stats, c.FailedUpdateTTL, c.SyncUpdate = "fo", inner.Raw().(cache.ReadWriterOf[int]), stats, -1, true
+				})}
+			}
+			res.Evaluations++
+			res.count("panic-suite:" + variant)
+			key := []byte("fo-key-1")
+			if seedStale {
+				_ = inner.Write(cache.WithTTL(ctx, -time.Second, false), key, 7)
+			}
+			invocations, failures := 0, 0
+			script := []string{"ok", "panic", "err", "panic", "ok"}
+			fail := func(prop, sig, detail string, also ...string) {
+				res.Violations = append(res.Violations, Violation{Property: prop, Also: also, Kind: "monitor", Sig: sig, Detail: variant + fmt.Sprintf(" (stale value present: %v): ", seedStale) + detail,
+					Replay: map[string]interface{}{"engine": "fo", "suite": "builder-panics", "variant": variant, "staleSeeded": seedStale, "script": script}})
+			}
+			for i, outcome := range script {
+				outcome := outcome
+				done := make(chan string, 1)
+				go func() {
+					defer func() {
+						if r := recover(); r != nil {
+							done <- fmt.Sprint("panic:", r)
+						}
+					}()
+					v, err := fe.Get(cache.WithSkipRead(ctx), append([]byte(nil), key...), func(ctx context.Context) (int, error) {
+						invocations++
+						switch outcome {
+						case "panic":
+							panic("builder-panic")
+						case "err":
+							failures++
+							return 0, tokErr{n: 900 + i}
+						}
+						return 100 + i, nil
+					})
+					done <- fmt.Sprintf("ret:%d,%v", v, err)
+				}()
+				var got string
+				select {
+				case got = <-done:
+				case <-time.After(5 * time.Second):
+					fail("C04", "fo:hang-after-panic", fmt.Sprintf("Get #%d (%s) did not return within 5s after an earlier builder panicked", i, outcome))
+					return
+				}
+				if outcome == "panic" && !strings.HasPrefix(got, "panic:") {
+					fail("C04", "fo:panic-swallowed", fmt.Sprintf("Get #%d: the builder panicked but Get returned %s", i, got))
+				}
+				if l := fe.KeyLocks(); l != 0 {
+					fail("C04", "fo:lock-leak-after-panic", fmt.Sprintf("after Get #%d (%s, %s): %d key lock(s) remain", i, outcome, got, l), "C09")
+				}
+			}
+			if b := int(stats.Get(cache.MetricBuild, "fo")); b != invocations {
+				fail("C18", "fo:build-count-panic", fmt.Sprintf("%d builder invocations (script %v) but cache_build=%d", invocations, script, b))
+			}
+			if f := int(stats.Get(cache.MetricFailed, "fo")); f != failures {
+				fail("C18", "fo:failed-count-panic", fmt.Sprintf("%d builder invocations returned an error (script %v) but cache_failed=%d", failures, script, f))
+			}
+			res.TracesValidated++
+		}
+	}
 }
